@@ -300,3 +300,14 @@ class SymDict(Val):
         self.inv = inv
         self.name = name
         self.removed = []
+
+
+class SymBV(Val):
+    """Fixed-width bit-vector integer (a stated bound on Python's unbounded int; used for bitmaps)."""
+    __slots__ = ("t",)
+
+    def __init__(self, t):
+        self.t = t
+
+    def __repr__(self):
+        return f"SymBV({self.t})"
